@@ -720,6 +720,29 @@ def run(prog: Program, res: Result) -> None:  # noqa: PLR0912, PLR0915
     _optional_scalar_rule(prog, res)
     res.rule("C12.R17", "no printer trims or splits the text it prints with Python's Unicode-aware defaults (`.strip()`, `.lstrip()`, `.rstrip()`, `.split()` without an argument): the lexer's words may contain every character from U+0080 to U+FFFF, no-break and other non-ASCII spaces included, so a name that ends in one is changed by str(template)")
     _unicode_trim_rule(prog, res)
+    res.rule("C12.R18", "a string token is printed inside the quotes its kind names: Token.__str__ wraps SINGLE_QUOTE_STRING in ' and DOUBLE_QUOTE_STRING in \" unconditionally - the token's value is source text, still escaped, and `\\\"` is an escape only inside double quotes")
+    tok_cls = prog.cls("liquid2.token.Token")
+    tstr = tok_cls.methods.get("__str__")
+    if tstr is None:
+        raise AnalysisError("Token.__str__ vanished")
+    n18 = 0
+    for i in ast.walk(tstr.node):
+        if not (isinstance(i, ast.If) and isinstance(i.test, ast.Compare) and norm(i.test.left) == "self.type_" and len(i.test.comparators) == 1):
+            continue
+        kind = norm(i.test.comparators[0]).split(".")[-1]
+        if not kind.endswith("_QUOTE_STRING"):
+            continue
+        n18 += 1
+        q = "'" if kind.startswith("SINGLE") else '"'
+        what = f"Token.__str__: {kind} is printed as {q}…{q}"
+        body = i.body[0] if len(i.body) == 1 else None
+        v = body.value if isinstance(body, ast.Return) else None
+        ok = isinstance(v, ast.JoinedStr) and len(v.values) == 3 and isinstance(v.values[0], ast.Constant) and v.values[0].value == q and isinstance(v.values[2], ast.Constant) and v.values[2].value == q and isinstance(v.values[1], ast.FormattedValue) and norm(v.values[1].value) == "self.value"
+        if ok:
+            res.ok("C12.R18", f"{tstr.file}:{i.lineno} Token.__str__", what, norm(v, 40))
+        else:
+            res.fail("C12.R18", file=tstr.file, line=i.lineno, qualname="Token.__str__", construct=f"Token.__str__: {kind} not printed unconditionally in its own quotes", message=f"Token.__str__ does not print a {kind} token as {q}<value>{q} unconditionally: the value is still-escaped source text, so `\"say \\\"hi\\\"\"` re-quoted with single quotes contains an escape that is invalid there and str(template) no longer parses", what=what)
+    res.floor("C12.R18", "quoted string kinds printed by Token.__str__", n18, 2)
 
 
 def _grouping_rule(prog: Program, res: Result) -> None:  # noqa: PLR0912, PLR0915
